@@ -24,6 +24,7 @@ PART 2 — adjacency state machine (`step`)
 * `handleLinkEvent` — `spanning_tree._handle_LinkEvent` (spanning_tree.py:156-166).  `Variant.skip = false` is the repaired handler
     (always `_update_tree()` — fix C19-1); `true` keeps the "both ends already blocked → return" shortcut of the pinned commit.
 Every op that raises LinkEvents carries `order`, the iteration order of the `switches` set inside `_calc_spanning_tree` (oracle argument).
+PART 5 — configuration (`Cfg`, `stepOfC`, `tstepOfC`): the configured link timeout and spanning_tree's `no_flood` as parameters.
 PART 3 — the recurring expiry timer (`TState`, `tstep`, `runT`): `Timer(_timeout_check_period, _expire_links, recurring=True)` (:290) under
     the contract of `recoco.Timer.run` (recoco.py:1077-1085).
 Time is in milliseconds.  Core only; structural recursion only. -/
@@ -551,5 +552,83 @@ theorem fireDue_isOf (v : Variant) (order : List Nat) (target : Nat) : ∀ (k : 
 
 theorem tstep_isOf (v : Variant) (ts : TState) (op : TOp) : tstep v ts op = tstepOf v ts (fun a => calcTreeL a op.order) op := by
   cases op <;> simp only [tstep, tstepOf, TOp.order, step_isOf, Op.order, fireDue_isOf]
+
+/-! ## Part 5: configuration is an input
+
+`Discovery(link_timeout = N)` (`launch(link_timeout = "N")`) replaces the link timeout of `_expire_links` (:328-340); the expiry
+timer's period `_timeout_check_period` is not configurable.  `spanning_tree.launch(no_flood = True)` makes `_handle_ConnectionUp`
+(:136-147) block every port of a new switch: `_prev[dpid][port] = False` and a NO_FLOOD port_mod for every port below `OFPP_MAX`, in
+the order of `con.ports`.  `stepOfC` / `tstepOfC` are `stepOf` / `tstepOf` with these two as parameters (`stepOfC_default`,
+`tstepOfC_default`: the handlers above are the instance at the defaults).  `hold_down` (ages of connections, one-shot timers) is not
+modelled. -/
+
+structure Cfg where
+  linkTimeout : Nat        -- `_link_timeout`, ms
+  noFlood : Bool           -- `spanning_tree._noflood_by_default`
+  deriving DecidableEq, Repr
+
+def Cfg.default : Cfg := ⟨LINK_TIMEOUT, false⟩
+
+/-- `for p in con.ports.values(): if p.port_no >= OFPP_MAX: continue; _prev[dpid][port] = False; con.send(port_mod NO_FLOOD)` -/
+def blockAll (d : Nat) : List Nat → Prev × List PortMod → Prev × List PortMod
+  | [], acc => acc
+  | p :: ps, (pv, out) =>
+    if p < OFPP_MAX then blockAll d ps (pv.set (d, p) false, out ++ [⟨d, p, false⟩])
+    else blockAll d ps (pv, out)
+
+def stepOfC (c : Cfg) (v : Variant) (s : DState) (choose : Choose) : Op → DState × Out
+  | .up d ps =>
+    if c.noFlood then
+      let r := blockAll d ps (s.prev.clear d, [])
+      ({ s with conns := Conns.erase s.conns d ++ [(d, ps)], prev := r.1 }, { mods := r.2 })
+    else stepOf v s choose (.up d ps)
+  | .sweep _ =>
+    let expired := keys (s.adj.filter fun e => e.2 + c.linkTimeout < s.now)
+    if expired.isEmpty then (s, {}) else deleteLinksOf v s expired choose
+  | .tick dt => stepOf v s choose (.tick dt)
+  | .down d o => stepOf v s choose (.down d o)
+  | .probe l o => stepOf v s choose (.probe l o)
+
+theorem stepOfC_default (v : Variant) (s : DState) (choose : Choose) (op : Op) :
+    stepOfC Cfg.default v s choose op = stepOf v s choose op := by
+  cases op <;> rfl
+
+def fireDueOfC (c : Cfg) (v : Variant) (choose : Choose) (target : Nat) : Nat → TState → Out → TState × Out
+  | 0, ts, out => (ts, out)
+  | k+1, ts, out =>
+    match ts.next with
+    | none => (ts, out)
+    | some n =>
+      if n ≤ target then
+        let r := stepOfC c v { ts.d with now := n } choose (.sweep [])
+        fireDueOfC c v choose target k
+          ⟨r.1, if timerGoesOn true expireReturns then some (n + CHECK_PERIOD) else none⟩ (out.append r.2)
+      else (ts, out)
+
+def tstepOfC (c : Cfg) (v : Variant) (ts : TState) (choose : Choose) : TOp → TState × Out
+  | .up d ps => let r := stepOfC c v ts.d choose (.up d ps); (⟨r.1, ts.next⟩, r.2)
+  | .down d o => let r := stepOfC c v ts.d choose (.down d o); (⟨r.1, ts.next⟩, r.2)
+  | .probe l o => let r := stepOfC c v ts.d choose (.probe l o); (⟨r.1, ts.next⟩, r.2)
+  | .wait dt _ =>
+    let target := ts.d.now + dt
+    let r := fireDueOfC c v choose target (dt / CHECK_PERIOD + 1) ts {}
+    (⟨{ r.1.d with now := target }, r.1.next⟩, r.2)
+
+theorem fireDueOfC_default (v : Variant) (choose : Choose) (target : Nat) : ∀ (k : Nat) (ts : TState) (out : Out),
+    fireDueOfC Cfg.default v choose target k ts out = fireDueOf v choose target k ts out
+  | 0, _, _ => rfl
+  | k+1, ts, out => by
+    unfold fireDueOfC fireDueOf
+    cases ts.next with
+    | none => rfl
+    | some n =>
+      simp only
+      split
+      · rw [stepOfC_default]; exact fireDueOfC_default v choose target k _ _
+      · rfl
+
+theorem tstepOfC_default (v : Variant) (ts : TState) (choose : Choose) (op : TOp) :
+    tstepOfC Cfg.default v ts choose op = tstepOf v ts choose op := by
+  cases op <;> simp only [tstepOfC, tstepOf, stepOfC_default, fireDueOfC_default]
 
 end Pox.Discovery
